@@ -63,6 +63,19 @@ Definition key_from_ekr (unwrap_fails factory_fails : bool) (t : bufs) : bool * 
   if unwrap_fails then (false, t)
   else let '(b, t1) := alloc t in new_crypto_key factory_fails b t1.
 
+(* intermediateKeyFromEKR in full: WithKeyFunc(sk, Decrypt) can hand back the decrypted key TOGETHER WITH an error (the system key's
+   secret failed to re-protect its memory after the callback); the buffer is wiped on that path too (fix M) *)
+Definition ik_from_ekr (unwrap_fails release_fails factory_fails : bool) (t : bufs) : bool * bufs :=
+  if unwrap_fails then (false, t)
+  else let '(b, t1) := alloc t in
+       if release_fails then (false, wipe b t1) else new_crypto_key factory_fails b t1.
+
+(* the code before fix M: the error path returned without touching the buffer *)
+Definition ik_from_ekr_before_fix (unwrap_fails release_fails factory_fails : bool) (t : bufs) : bool * bufs :=
+  if unwrap_fails then (false, t)
+  else let '(b, t1) := alloc t in
+       if release_fails then (false, t1) else new_crypto_key factory_fails b t1.
+
 (* AWS DecryptKey: for each configured region with an entry: KMS.Decrypt -> data key plaintext; AEAD decrypt of the system
    key with it; MemClr(data key) in every case; a successful AEAD decrypt returns the system key buffer to the caller *)
 Fixpoint aws_decrypt_key (regions : list (bool * bool)) (t : bufs) : option nat * bufs :=
@@ -86,6 +99,14 @@ Proof. intro H. unfold decrypt_row, alloc. destruct k; cbn [snd]; [exact H | app
 
 Theorem key_from_ekr_wipes u f t : all_clean t -> all_clean (snd (key_from_ekr u f t)).
 Proof. intro H. unfold key_from_ekr, alloc, new_crypto_key. destruct u; cbn [snd]; [exact H | apply wipe_last; exact H]. Qed.
+
+Theorem ik_from_ekr_wipes u r f t : all_clean t -> all_clean (snd (ik_from_ekr u r f t)).
+Proof.
+  intro H. unfold ik_from_ekr, new_crypto_key, alloc. destruct u; [exact H|]. destruct r; cbn [snd]; apply wipe_last; exact H.
+Qed.
+
+Theorem ik_from_ekr_before_fix_refuted : exists u r f t, all_clean t /\ ~ all_clean (snd (ik_from_ekr_before_fix u r f t)).
+Proof. exists false, true, false, []. split; [reflexivity | vm_compute; discriminate]. Qed.
 
 Theorem aws_encrypt_key_wipes g a m t : all_clean t -> all_clean (snd (aws_encrypt_key g a m t)).
 Proof. intro H. unfold aws_encrypt_key, alloc. destruct g; cbn [snd]; [exact H | apply wipe_last; exact H]. Qed.
